@@ -1,33 +1,308 @@
-// Package c02: open-file I/O of MemFS/OrefaFS versus a reference model of os.File.
+// Package c02: open-file I/O of MemFS/OrefaFS versus posixref's os.File model
+// (validated against *os.File on tmpfs in native runs).
 package c02
 
 import (
-	"github.com/avfs/avfs/vfs/memfs"
-
+	"verif/harness/hx"
+	"verif/harness/posix"
 	"verif/harness/sym"
+	"verif/harness/sysx"
 )
 
 func init() {
-	sym.Register("c02.HSeekRead", HSeekRead)
+	sym.Register("c02.HOps", HOps)
+	sym.Register("c02.HDirRead", HDirRead)
 }
 
-func HSeekRead() {
-	vfs := memfs.New()
-	_ = vfs.WriteFile("/tmp/f", []byte("abc"), 0o644)
-	flag := sym.Int("flag") & 0xC43
-	f, err := vfs.OpenFile("/tmp/f", flag, 0)
-	if err != nil {
+// Handle operations.
+var Ops = []string{"Read", "ReadAt", "Write", "WriteAt", "Seek", "Truncate", "Stat", "Sync", "Chmod", "Chown", "Close", "PathTruncate", "PathRename", "PathLink", "PathRemove"}
+
+// NumOps is len(Ops).
+const NumOps = 15
+
+type world struct {
+	sys   sysx.Sys
+	files sysx.FileSys
+}
+
+type result struct {
+	code  int
+	n     int64
+	bytes []byte
+}
+
+const path = "/w/f"
+
+// one performs operation op with the given arguments in world w on handle h.
+type args struct {
+	n    int
+	off  int64
+	wh   int
+	size int64
+	data []byte
+	mode uint32
+	uid  int
+	gid  int
+}
+
+func one(w world, op string, h int, a args) result {
+	switch op {
+	case "Read":
+		b, c := w.files.Read(h, a.n)
+		return result{code: c, n: int64(len(b)), bytes: b}
+	case "ReadAt":
+		b, c := w.files.ReadAt(h, a.n, a.off)
+		return result{code: c, n: int64(len(b)), bytes: b}
+	case "Write":
+		n, c := w.files.Write(h, a.data)
+		return result{code: c, n: int64(n)}
+	case "WriteAt":
+		n, c := w.files.WriteAt(h, a.data, a.off)
+		return result{code: c, n: int64(n)}
+	case "Seek":
+		n, c := w.files.Seek(h, a.off, a.wh)
+		return result{code: c, n: n}
+	case "Truncate":
+		return result{code: w.files.FTruncate(h, a.size)}
+	case "Stat":
+		st, c := w.files.FStat(h)
+		return result{code: c, n: st.Size}
+	case "Sync":
+		return result{code: w.files.FSync(h)}
+	case "Chmod":
+		return result{code: w.files.FChmod(h, a.mode)}
+	case "Chown":
+		return result{code: w.files.FChown(h, a.uid, a.gid)}
+	case "Close":
+		return result{code: w.files.Close(h)}
+	case "PathTruncate":
+		return result{code: w.sys.Truncate(path, a.size)}
+	case "PathRename":
+		return result{code: w.sys.Rename(path, "/w/g")}
+	case "PathLink":
+		return result{code: w.sys.Link(path, "/w/l")}
+	case "PathRemove":
+		return result{code: w.sys.Remove(path)}
+	}
+	return result{}
+}
+
+func bytesEq(a, b []byte) bool {
+	if len(a) != len(b) {
+		return false
+	}
+	for i := range a {
+		if a[i] != b[i] {
+			return false
+		}
+	}
+	return true
+}
+
+func pickArgs(op string, tag string) args {
+	var a args
+	switch op {
+	case "Read":
+		a.n = sym.Choose(tag+"n", 4)
+	case "ReadAt":
+		a.n = sym.Choose(tag+"n", 4)
+		a.off = sym.Int64(tag + "off")
+	case "Write":
+		a.data = sym.Bytes(tag+"data", sym.Choose(tag+"m", 3))
+	case "WriteAt":
+		a.data = sym.Bytes(tag+"data", sym.Choose(tag+"m", 3))
+		a.off = sym.Int64(tag + "off")
+		// growth is bounded: offsets that would make the file longer than 8 bytes are outside the claim
+		sym.Assume(a.off <= 6)
+	case "Seek":
+		a.off = sym.Int64(tag + "off")
+		a.wh = sym.Int(tag + "whence")
+		// lseek(2) takes whence as a 32-bit value: wider values are outside the claim
+		sym.Assume(a.wh >= -2147483648 && a.wh <= 2147483647)
+		// SEEK_DATA (3) and SEEK_HOLE (4) are Linux extensions outside io.Seeker: outside the claim
+		sym.Assume(a.wh != 3 && a.wh != 4)
+	case "Truncate", "PathTruncate":
+		a.size = sym.Int64(tag + "size")
+		sym.Assume(a.size <= 8)
+	case "Chmod":
+		a.mode = sym.Uint32(tag+"mode") & 0o7777
+	case "Chown":
+		a.uid = sym.Int(tag + "uid")
+		a.gid = sym.Int(tag + "gid")
+		sym.Assume(a.uid >= -1 && a.uid <= 70000 && a.gid >= -1 && a.gid <= 70000)
+	}
+	return a
+}
+
+func flagName(f int) string {
+	s := []string{"rdonly", "wronly", "rdwr"}[f&3]
+	if f&posix.OAppend != 0 {
+		s += "+append"
+	}
+	if f&posix.OTrunc != 0 {
+		s += "+trunc"
+	}
+	if f&posix.OCreate != 0 {
+		s += "+create"
+	}
+	if f&posix.OExcl != 0 {
+		s += "+excl"
+	}
+	return s
+}
+
+// HOps: h handles opened with symbolic flags on one file of len0 symbolic bytes,
+// then a history of L handle/path operations; every result and, after every
+// step, the content seen through the path and the size seen through every
+// handle are compared with the model (and natively with the kernel).
+func HOps(kind, len0, nh, L int) {
+	v := hx.NewBase(kind)
+	impl := world{sys: sysx.ImplSys{V: v}, files: &sysx.ImplFiles{V: v}}
+	mfs := posix.New()
+	model := world{sys: sysx.ModelSys{F: mfs}, files: &sysx.ModelFiles{F: mfs}}
+	var kern *world
+	var kf *sysx.KernelFiles
+	if sym.Native() {
+		k := sysx.NewKernel()
+		defer k.Done()
+		kf = &sysx.KernelFiles{K: k}
+		defer kf.CloseAll()
+		kern = &world{sys: k, files: kf}
+	}
+	content := sym.Bytes("content", len0)
+	setup := func(w world) {
+		if c := w.sys.MkdirAll("/w", 0o755); c != 0 {
+			panic("setup")
+		}
+		if c, c2 := w.sys.OpenWrite(path, 1|0x40|0x200, 0o644, content); c != 0 || c2 != 0 {
+			panic("setup")
+		}
+	}
+	setup(impl)
+	setup(model)
+	if kern != nil {
+		setup(*kern)
+	}
+	fsName := hx.KindName(kind)
+	// open the handles
+	type hnd struct {
+		i, m, k int
+		flags   string
+	}
+	var hs []hnd
+	for i := 0; i < nh; i++ {
+		flag := sym.Int("flag") & (3 | posix.OCreate | posix.OExcl | posix.OTrunc | posix.OAppend)
+		sym.Assume(flag&3 != 3)
+		sym.Label(fsName + "|open")
+		hi, ci := impl.files.Open(path, flag, 0o644)
+		hm, cm := model.files.Open(path, flag, 0o644)
+		hk := -1
+		if kern != nil {
+			var ck int
+			hk, ck = kern.files.Open(path, flag, 0o644)
+			sym.Assert(ck == cm, "ORACLE|open|kernel-"+hx.CodeName(ck)+"|model-"+hx.CodeName(cm))
+		}
+		sym.Assert(ci == cm, "C02|"+fsName+"|open|errno|got-"+hx.CodeName(ci)+"|want-"+hx.CodeName(cm))
+		if ci != 0 || cm != 0 {
+			continue
+		}
+		hs = append(hs, hnd{hi, hm, hk, flagName(flag)})
+	}
+	if len(hs) == 0 {
 		return
 	}
-	off := sym.Int64("off")
-	wh := sym.Int("whence")
 	sym.Reach("opened")
-	var n int
-	res := sym.Outcome(func() {
-		_, _ = f.Seek(off, wh)
-		b := make([]byte, 2)
-		n, _ = f.Read(b)
-	})
-	sym.Observe("n", n)
-	sym.Assert(!res.Panicked, "C07|memfs|File.Read|panic|"+res.Class+"|"+res.Site)
+	for step := 0; step < L; step++ {
+		op := Ops[sym.Choose("op", NumOps)]
+		h := hs[0]
+		if len(hs) > 1 {
+			h = hs[sym.Choose("h", len(hs))]
+		}
+		a := pickArgs(op, "")
+		label := fsName + "|" + op + "|" + h.flags
+		sym.Label(label)
+		var ri result
+		res := sym.Outcome(func() { ri = one(impl, op, h.i, a) })
+		sym.Assert(!res.Panicked, "C02|"+label+"|panic|"+res.Class+"|"+res.Site)
+		if res.Panicked {
+			return
+		}
+		rm := one(model, op, h.m, a)
+		if kern != nil {
+			rk := one(*kern, op, h.k, a)
+			sym.Assert(rk.code == rm.code && rk.n == rm.n && bytesEq(rk.bytes, rm.bytes), "ORACLE|"+label+"|kernel-"+hx.CodeName(rk.code)+"|model-"+hx.CodeName(rm.code))
+		}
+		sym.Observe("code", ri.code)
+		sym.Assert(ri.code == rm.code, "C02|"+label+"|errno|got-"+hx.CodeName(ri.code)+"|want-"+hx.CodeName(rm.code))
+		sym.Assert(ri.n == rm.n, "C02|"+label+"|count-or-offset")
+		sym.Assert(bytesEq(ri.bytes, rm.bytes), "C02|"+label+"|bytes")
+		// state seen through every handle and through the path(s)
+		for _, x := range hs {
+			si, ci := impl.files.FStat(x.i)
+			sm, cm := model.files.FStat(x.m)
+			sym.Assert(ci == cm && si.Size == sm.Size, "C02|"+label+"|then|size-through-handle")
+			oi, c1 := impl.files.Seek(x.i, 0, 1)
+			om, c2 := model.files.Seek(x.m, 0, 1)
+			sym.Assert(c1 == c2 && oi == om, "C02|"+label+"|then|offset-of-handle")
+			if kern != nil {
+				sk, ck := kern.files.FStat(x.k)
+				ok, c3 := kern.files.Seek(x.k, 0, 1)
+				sym.Assert(ck == cm && sk.Size == sm.Size && c3 == c2 && ok == om, "ORACLE|"+label+"|then|handle-state")
+			}
+		}
+		for _, p := range []string{path, "/w/g", "/w/l"} {
+			bi, ci := impl.sys.ReadFile(p)
+			bm, cm := model.sys.ReadFile(p)
+			sym.Assert(ci == cm && bytesEq(bi, bm), "C02|"+label+"|then|content-through-path")
+			if kern != nil {
+				bk, ck := kern.sys.ReadFile(p)
+				sym.Assert(ck == cm && bytesEq(bk, bm), "ORACLE|"+label+"|then|content")
+			}
+		}
+	}
+	sym.Reach("history-done")
+}
+
+// HDirRead: a directory handle delivers, through Readdirnames(n), each entry
+// exactly once in batches of at most n followed by io.EOF; n <= 0 returns all
+// remaining entries and a nil error.
+func HDirRead(kind, entries, calls int) {
+	v := hx.NewBase(kind)
+	hx.Must(v.MkdirAll("/w/d", 0o755))
+	names := []string{"a", "b", "c"}
+	for i := 0; i < entries; i++ {
+		hx.Must(v.WriteFile("/w/d/"+names[i], nil, 0o644))
+	}
+	f, err := v.Open("/w/d")
+	hx.Must(err)
+	sym.Label(hx.KindName(kind) + "|Readdirnames")
+	sym.Reach("dir-opened")
+	seen := map[string]int{}
+	total := 0
+	for c := 0; c < calls; c++ {
+		n := sym.Int("n")
+		var got []string
+		var rerr error
+		res := sym.Outcome(func() { got, rerr = f.Readdirnames(n) })
+		sym.Assert(!res.Panicked, "C02|"+hx.KindName(kind)+"|Readdirnames|panic|"+res.Class+"|"+res.Site)
+		code := hx.Code(rerr)
+		remaining := entries - total
+		for _, g := range got {
+			seen[g]++
+			sym.Assert(seen[g] == 1, "C02|"+hx.KindName(kind)+"|Readdirnames|entry-delivered-twice")
+		}
+		total += len(got)
+		if n <= 0 {
+			sym.Assert(code == 0 && len(got) == remaining, "C02|"+hx.KindName(kind)+"|Readdirnames|n<=0|must-return-all-remaining-with-nil-error")
+		} else if remaining == 0 {
+			sym.Assert(code == hx.EOF && len(got) == 0, "C02|"+hx.KindName(kind)+"|Readdirnames|at-end|want-EOF|got-"+hx.CodeName(code))
+		} else {
+			want := remaining
+			if n < want {
+				want = n
+			}
+			sym.Assert(code == 0 && len(got) == want, "C02|"+hx.KindName(kind)+"|Readdirnames|batch-size")
+		}
+		sym.Assert(total <= entries, "C02|"+hx.KindName(kind)+"|Readdirnames|more-entries-than-exist")
+	}
 }
